@@ -114,15 +114,18 @@ def Colex.it : It Colex Sl := ⟨Colex.next, fun s => .ok (s, s.data)⟩
 /-! ## MultisetCombinations (Algorithm Q) -/
 
 structure MSComb where
-  state : Option Sl     -- `nil` until the first call
-  m : Sl
+  state : Option Sl     -- `nil` until the first call; counts of the types with a positive multiplicity
+  m : Sl                -- the positive multiplicities
   k : Int
   j : Int
   value : Sl            -- the buffer `Value` writes into
   done : Bool
+  all : Sl              -- the multiplicities as given
+  freq : Option Sl      -- `nil` until the first successful `Next`; the counts indexed like `all`
   deriving Repr
 
-def MSComb.init (m : Sl) (k : Int) : MSComb := ⟨none, m, k, 0, [], false⟩
+/-- `MultisetCombinations(m, k)`: `positive` = the entries of `m` that are `> 0`, in order -/
+def MSComb.init (m : Sl) (k : Int) : MSComb := ⟨none, m.filter (fun v => v > 0), k, 0, [], false, m, none⟩
 
 /-- step Q2: `for j := j0; j < len(m); j++ { if x > m[j] { state[j] = m[j]; x -= m[j]; continue }; state[j] = x; x = 0; break }`.
 Returns the state, `x`, the final value of the loop variable and whether the loop ended by `break`. -/
@@ -221,12 +224,32 @@ def MSComb.next0 (s : MSComb) : Outcome (MSComb × Bool) :=
           let j := if s0 == 0 then 1 else j
           pure ({ s with state := some st, j := j }, true)
 
+/-- `i := 0; for t, v := range all { if v > 0 { freq[t] = state[i]; i++ } }` (the argument `t` is the loop index) -/
+def MSComb.scatter (st : Sl) : List Int → Int → Int → Sl → Outcome Sl
+  | [], _, _, fr => .ok fr
+  | v :: rest, i, t, fr =>
+    if v > 0 then do
+      let x ← get st i
+      let fr ← set fr t x
+      MSComb.scatter st rest (i + 1) (t + 1) fr
+    else MSComb.scatter st rest i (t + 1) fr
+
+/-- `if iter.freq == nil { iter.freq = make([]int, len(iter.all)) }` -/
+def MSComb.freqBuf (s : MSComb) : Outcome Sl :=
+  match s.freq with
+  | none => make s.all.length
+  | some fr => .ok fr
+
 /-- `(*MultisetCombinationIterator).Next` -/
 def MSComb.next (s : MSComb) : Outcome (MSComb × Bool) :=
   if s.done then .ok (s, false)
   else do
     let (s1, b) ← MSComb.next0 s
-    if b then pure (s1, true) else pure ({ s1 with done := true }, false)
+    if b then
+      let fr ← MSComb.freqBuf s1
+      let fr ← MSComb.scatter (s1.state.getD []) s1.all 0 0 fr
+      pure ({ s1 with freq := some fr }, true)
+    else pure ({ s1 with done := true }, false)
 
 /-- `for j := 0; j < v; j++ { value[c] = i; c++ }` -/
 def MSComb.emit (i : Int) : Nat → Int → Sl → Outcome (Sl × Int)
@@ -244,7 +267,7 @@ def MSComb.expand : List Int → Int → Int → Sl → Outcome Sl
 
 /-- `Value()` followed by `FreqValue()`: the pair (frequency vector, multiset) -/
 def MSComb.valueOp (s : MSComb) : Outcome (MSComb × (Sl × Sl)) := do
-  let st := s.state.getD []
+  let st := s.freq.getD []
   let val ← MSComb.expand st 0 0 s.value
   pure ({ s with value := val }, (st, val))
 
